@@ -136,6 +136,7 @@ let dispatch cmd r =
   | "hist" -> let l = next_list r in out_list (fullhistogram l)
   | "com" -> let f = next_arr r in let lab = next_list r in let l = next_z r in
       let (t, s) = com_sums f lab l in out_lists [[t]; s]
+  | "label" -> let f = next_arr r in let bc = next_arr r in let (o, n) = label f bc in out_lists [o; [n]]
   | _ -> failwith ("unknown command " ^ cmd)
 
 let () =
